@@ -568,6 +568,34 @@ def truth_on_branch(test, atom):
     return (None, None)
 
 
+def object_atom(pred, fn=None):
+    """atom "the object e (pred(e)) is there": e / bool(e) / e is not None; negations not e / e is None.  For attributes that hold
+    either None or an object (never an empty container).  With fn, a local alias `x = <e>` (bound once) counts as e."""
+    def is_e(x):
+        if pred(x):
+            return True
+        if fn is not None and isinstance(x, ast.Name):
+            defs = [n.value for n in ast.walk(fn) if isinstance(n, ast.Assign) and len(n.targets) == 1
+                    and isinstance(n.targets[0], ast.Name) and n.targets[0].id == x.id]
+            stores = [n for n in ast.walk(fn) if isinstance(n, ast.Name) and n.id == x.id and isinstance(n.ctx, ast.Store)]
+            return len(defs) == 1 and len(stores) == 1 and pred(defs[0])
+        return False
+    t = truthy_atom(is_e)
+    n = none_atom(is_e)
+
+    def atom(x):
+        a = t(x)
+        if a is not None:
+            return a
+        b = n(x)
+        if b is True:
+            return "neg"
+        if b == "neg":
+            return True
+        return None
+    return atom
+
+
 def truthy_atom(pred):
     """atom for the truthiness of an expression e with pred(e): `e`, `bool(e)`, `e is not None` (true side only is
     not exact, so only `e` / `not e` / `len(e) > 0`-free forms are accepted) """
